@@ -65,7 +65,8 @@ def main() -> int:
         tb = traceback.format_exc()
         sys.stderr.write(tb)
         repo_frames = [ln for ln in tb.splitlines() if ln.strip().startswith("File") and (str(vcore.REPO) + "/spsdk") in ln]
-        if repo_frames:
+        last = tb.strip().splitlines()[-1]
+        if repo_frames and not last.startswith(("ImportError", "ModuleNotFoundError", "SyntaxError", "IndentationError")):
             # The real code raised where it did not on the unchanged tree: the correspondence run is broken.  No concrete
             # property-violating input was isolated, so this is reported as "no-failing-input-found" with the traceback as replay.
             rd = vcore.VERIF / "replays"
